@@ -129,3 +129,64 @@ def v_version_gate(v: int) -> bool:
         else:
             benv.open = old_open
     return R(v <= benv.Environment.version)
+
+
+# ---- toolchain replay starts from the configure-time variables ---------------------------------
+from bfg9000 import build as bbuild
+from bfg9000.build_inputs import Regenerating
+
+
+class _TEnv:
+    def __init__(self, variables):
+        self.variables = variables
+        self.toolchain = benv.Toolchain()
+
+    def reload(self):
+        benv.Environment.reload(self)
+
+
+def t_toolchain_replay(ops: List[Tuple[int, int, int]], s0: str, s1: str, mode: int) -> bool:
+    """whenever build files are regenerated (explicitly or lazily) the toolchain script is replayed
+    on the variables *as they were at configure time*, whatever an earlier replay did to them; on
+    the first configure the toolchain path is recorded instead
+    pre: len(ops) <= NO and len(s0) <= VL and len(s1) <= VL and 0 <= mode < 3
+    pre: all(0 <= o < 7 and 0 <= k < 3 and 0 <= v < 2 for o, k, v in ops)
+    post: _
+    """
+    vals = [s0, s1]
+    d = EnvVarDict({KEYS[k]: vals[v] for k, v in INIT})
+    first = dict(d)
+    for o, k, vi in ops:
+        key = KEYS[k]
+        if o == 0:
+            d[key] = vals[vi]
+        elif o == 1:
+            d.pop(key, None)
+        elif o == 2:
+            d.setdefault(key, vals[vi])
+        elif o == 3:
+            d.clear()
+        elif o == 4:
+            d.update({key: vals[vi]})
+    env = _TEnv(d)
+    seen = []
+    old = bbuild.execute_file
+    old_ctx = bbuild.builtin.ToolchainContext
+    bbuild.execute_file = lambda context, path, **kw: seen.append(dict(env.variables))
+    bbuild.builtin.ToolchainContext = lambda e, regenerating: None
+    try:
+        if mode == 0:
+            m = Regenerating.false
+        elif mode == 1:
+            m = Regenerating.lazy
+        else:
+            m = Regenerating.true
+        bbuild.load_toolchain(env, 'tc.bfg', m)
+    finally:
+        bbuild.execute_file = old
+        bbuild.builtin.ToolchainContext = old_ctx
+    if len(seen) != 1:
+        return R(False)
+    if mode == 0:
+        return R(env.toolchain.path == 'tc.bfg' and seen[0] == dict(d))
+    return R(seen[0] == first and env.toolchain.path is None)
